@@ -5,7 +5,7 @@
    Model/SourcesCsvProj.v (CSV header handling and used-column projection, encoding/csv trusted).
    Not covered by a theorem (oracle only, see design/C23.md): parquet row reconstruction. *)
 From Octo Require Import SourcesScan SourcesQueue SourcesStdin SourcesCsvProj.
-From Octo Require Import SourcesScanProofs SourcesQueueProofs SourcesStdinProofs SourcesCsvProjProofs.
+From Octo Require Import SourcesScanProofs SourcesQueueProofs SourcesStdinProofs SourcesCsvProjProofs SourcesQueueBoundProofs.
 From Coq Require Import Permutation.
 
 (* ---- (1) the lines source splits exactly at the separator, under every chunking ---------------------- *)
@@ -104,6 +104,28 @@ Example C23_json_order_example :
   run_consumer 5 cstate0 (messages (fun i => i) 5 2 [2;0;1]%nat 0)
   = (mkc [] 5 true [0;1;2;3;4]%nat, Exited, []).
 Proof. vm_compute. reflexivity. Qed.
+
+(* The token window.  A job is submitted only while fewer than [cap] results are outstanding (128 tokens:
+   cap(outChanAvailableTokens), the constant C29's model calls the result-channel capacity), hence the job
+   received as the p-th result has index < p + cap (in_range_window).  Under every such schedule, after any k
+   messages the queue spans at most (k + cap) batches. *)
+Theorem C23_json_queue_window : forall (A : Type) (record_of_line : nat -> A) n batch cap sched dpos k st e rest,
+  in_range_window cap sched = true ->
+  run_consumer n cstate0 (firstn k (messages record_of_line n batch sched dpos)) = (st, e, rest) ->
+  (length (queue st) <= (k + cap) * batch)%nat.
+Proof. intros A r. exact (json_queue_window r). Qed.
+Print Assumptions C23_json_queue_window.
+
+(* The bound "never more than cap batches" (C23_json_queue_bounded as first planned) is FALSE: the tokens bound the
+   results in flight, not the reorder queue.  One slow job lets the queue grow with the file: cap = 2, six
+   one-line jobs, job 0 finishing last is a schedule the protocol allows, and the queue has 6 slots. *)
+Theorem C23_json_queue_bounded_refuted :
+  exists n batch cap sched k st e rest,
+    in_range_window cap sched = true /\
+    run_consumer n cstate0 (firstn k (messages (fun i => i) n batch sched 6)) = (st, e, rest) /\
+    (cap * batch < length (queue st))%nat.
+Proof. exact json_queue_not_bounded_by_cap. Qed.
+Print Assumptions C23_json_queue_bounded_refuted.
 
 (* ---- (3) stdin: the bytes a preview consumed are replayed ---------------------------------------------- *)
 
